@@ -113,9 +113,31 @@ def gen(rng, tier):
             # directed: an ABF bias that hides the Jacobian force of a distance variable, next to a restraint; the ABF is deleted
             forced = ["cv_dist", "bias_abfhj", "bias_plain", "step", "step", "del_first"]
             nops += len(forced)
+        if k % 8 == 3:
+            # directed: a variable with its own time-step factor n >= 3 and one restraint sharing it; the restraint is deleted at a step
+            # that is neither a multiple of n nor the step before one, and the three closing steps follow at once (the variable must go on
+            # sleeping exactly as if the restraint had never existed)
+            ntsf = rng.choice([3, 4])
+            nst = rng.choice([2, 5] if ntsf == 3 else [2, 3, 6, 7])
+            forced = ["cv_tsf", "bias_same"] + ["step"] * nst + ["del_first"]
+            nops = len(forced)
         for j in range(nops):
             r = rng.rand()
             f = forced.pop(0) if forced else None
+            if f == "cv_tsf":
+                name = "v%d" % ncv; ncv += 1
+                conf = ("colvar {\n  name %s\n  width 0.5\n  lowerBoundary 0.0\n  upperBoundary 8.0\n  timeStepFactor %d\n  distance {\n    group1 { atomNumbers 1 2 }\n"
+                        "    group2 { atomNumbers 3 }\n  }\n}\n") % (name, ntsf)
+                lines.append(cfg(conf)); cvs[name] = conf; kinds[name] = "distance"; order.append(("cv", name)); oplog.append(("add", "cv", name, conf))
+                lines.append("d.check"); checks.append(len(lines))
+                continue
+            if f == "bias_same":
+                name = "b%d" % nb; nb += 1
+                use = [sorted(cvs)[0]]
+                conf = "harmonic {\n name %s\n colvars %s\n forceConstant 1.5\n centers 1.0\n timeStepFactor %d\n}\n" % (name, use[0], ntsf)
+                lines.append(cfg(conf)); biases[name] = (conf, use); order.append(("bias", name)); oplog.append(("add", "bias", name, conf))
+                lines.append("d.check"); checks.append(len(lines))
+                continue
             if f == "cv_dist":
                 name = "v%d" % ncv; ncv += 1
                 conf = ("colvar {\n  name %s\n  width 0.5\n  lowerBoundary 0.0\n  upperBoundary 8.0\n  distance {\n    group1 { atomNumbers 1 2 }\n"
@@ -205,7 +227,7 @@ def gen(rng, tier):
                     lines.append("m.cv %s" % name)
             lines.append("d.check"); marks[which].append(len(lines))
         cases.append({"lines": lines, "meta": {"checks": checks, "marks": marks, "survivors": [list(o) for o in order], "ncvs": len(cvs),
-                                                "cvnames": sorted(cvs), "bias_kinds": sorted(biases), "deletions": ndel,
+                                                "cvnames": sorted(cvs), "bias_kinds": sorted(biases), "deletions": ndel, "tsf_vars": sorted(c for c in cvs if "timeStepFactor" in cvs[c]),
                                                 # variables that lost a bias by deletion and are now used only by biases that can sleep (or by none): the listed
                                                 # finding (top-level "active" is lost when the reference count returns to 0) shows whenever nothing awake needs them
                                                 "orphaned": sorted(c for c in cvs if c in had and not any(c in use and "timeStepFactor" not in conf_ for (conf_, use) in biases.values()))},
@@ -276,6 +298,8 @@ def oracle(case, out):
                 olds = [vals(out, no[s2] + 2 + q, "x") for s2 in range(3)]
                 frozen = olds[0] == olds[1] == olds[2]
                 sig = "variable left inactive after its last bias was deleted" if (m["cvnames"][q] in m.get("orphaned", []) or (frozen and m["deletions"] > 0)) else None
+                if m["cvnames"][q] in m.get("tsf_vars", []):
+                    sig = None          # a variable with its own time-step factor is woken and put to sleep by the module at every step: the listed finding does not reach it
                 viol.append((sig, "step %d: variable %s has value %r after the define/delete sequence, %r in an instance that only ever had the survivors" % (s, m["cvnames"][q], xo, xn)))
                 return viol
     # atoms no longer used are released: same reference counts as the fresh instance
